@@ -296,7 +296,14 @@ class CoreMixin:
             s2.set('timeout', self.branch_timeout_ms)
             s2.add(self.solver.assertions())
             s2.add(z3.Not(fact))
-            return hard_check(s2, limit_ms=self.branch_timeout_ms) == z3.unsat
+            if hard_check(s2, limit_ms=self.branch_timeout_ms) == z3.unsat:
+                return True
+            s3 = z3.Solver()
+            s3.set('timeout', self.branch_timeout_ms)
+            s3.set('smt.mbqi', False)
+            s3.add(self.solver.assertions())
+            s3.add(z3.Not(fact))
+            return hard_check(s3, limit_ms=self.branch_timeout_ms) == z3.unsat
         r, _ = self._check(z3.Not(fact), timeout=self.branch_timeout_ms)
         return r == z3.unsat
 
@@ -508,6 +515,17 @@ class CoreMixin:
             s2.add(self.solver.assertions())
             s2.add(z3.Not(goal))
             r = hard_check(s2, limit_ms=self.check_timeout_ms)
+            if r == z3.unknown:
+                # z3's model-based quantifier instantiation gives up at once on some array / lambda
+                # problems ("incomplete (theory array)") that pure E-matching refutes: second attempt without it
+                s2b = z3.Solver()
+                s2b.set('timeout', self.check_timeout_ms)
+                s2b.set('smt.mbqi', False)
+                s2b.add(self.solver.assertions())
+                s2b.add(z3.Not(goal))
+                rb = hard_check(s2b, limit_ms=self.check_timeout_ms)
+                if rb == z3.unsat:
+                    r = rb
             d2 = time.time() - t0
             self.solver_s += d2
             dt += d2
@@ -757,13 +775,15 @@ class CoreMixin:
         elif isinstance(t, TSet) and isinstance(t.elem, (TRef, TPkt)):
             self.wf_seen.add(key)
             x = z3.Int(fresh_name('wf_x'))
-            self.assume(z3.ForAll([x], z3.Implies(v.z[x], z3.And(x > 0, x < c)), patterns=[v.z[x]]))
+            from . import lists as L
+            self.assume(L.forall([x], z3.Implies(v.z[x], z3.And(x > 0, x < c)), patterns=[v.z[x]]))
         elif isinstance(t, TDict) and isinstance(t.v, (TRef, TPkt)):
             self.wf_seen.add(key)
             k = z3.Const(fresh_name('wf_k'), t.k.sort())
             mp = t.map(v.z)
-            self.assume(z3.ForAll([k], z3.Implies(t.dom(v.z)[k], z3.And(mp[k] > 0, mp[k] < c)),
-                                  patterns=[mp[k]]))
+            from . import lists as L
+            self.assume(L.forall([k], z3.Implies(t.dom(v.z)[k], z3.And(mp[k] > 0, mp[k] < c)),
+                                 patterns=[mp[k]]))
 
     def new_ref(self):
         r = self.alloc_counter()
